@@ -22,6 +22,7 @@ def check(ctx):
     ctx.doc('R4', 'every parameter of a cached method is annotated with a hashable value type')
     ctx.doc('R5', 'attributes read by cached methods are assigned only during construction')
     ctx.doc('R6', 'no package code writes in place into a value returned by a cached method')
+    ctx.doc('R7', 'a hand-rolled memo table (`if key not in table: table[key] = value`) is keyed on every parameter the stored value depends on')
     check_decorator(ctx)
     cms = cached_methods(ctx)
     owners = {}
@@ -35,6 +36,7 @@ def check(ctx):
         check_params(ctx, f)
         check_retention(ctx, f)
     check_writes(ctx, owners)
+    check_handrolled_memo(ctx, 'R7')
 
 
 # ------------------------------------------------------------------------------------------------ R1
@@ -411,3 +413,73 @@ def check_writes(ctx, owners):
             if cached and e['kind'] in ('sub', 'aug', 'del', 'out=', 'method:sort', 'method:fill') and base.ty in ('ndarray', 'DataFrame', 'list', 'dict', 'Series'):
                 ctx.ob('R6', where, e['node'], False, f'in-place write into the memoised result of {cached[0][7:]}: later calls return the modified value')
     ctx.ob('R6', 'gemdat', f'{n_store} in-place / attribute stores in the package', True, 'none targets a memoised value')
+
+
+# ------------------------------------------------------------------------------------------------ R7 hand-rolled memo tables
+def memo_sites(fnode):
+    """(if-node, key expr, table expr, stored value expr) for `if K not in T: ... T[K] = V` inside a function."""
+    out = []
+    for n in walk_no_nested(fnode):
+        if not isinstance(n, ast.If) or not isinstance(n.test, ast.Compare) or len(n.test.ops) != 1:
+            continue
+        op = n.test.ops[0]
+        if isinstance(op, ast.NotIn):
+            body = n.body
+        elif isinstance(op, ast.In):
+            body = n.orelse
+        else:
+            continue
+        k, t = n.test.left, n.test.comparators[0]
+        for s_ in body:
+            for w in ast.walk(s_):
+                if isinstance(w, ast.Assign) and len(w.targets) == 1 and isinstance(w.targets[0], ast.Subscript) \
+                        and norm_text(w.targets[0].value) == norm_text(t) and norm_text(w.targets[0].slice) == norm_text(k):
+                    out.append((n, k, t, w.value))
+    return out
+
+
+def check_handrolled_memo(ctx, rule):
+    n_sites = 0
+    for q, f in sorted(ctx.p.functions.items()):
+        sites = memo_sites(f.node)
+        if not sites:
+            continue
+        it = ctx.entry(q) if f.parent is None else None
+        for ifn, k, t, v in sites:
+            n_sites += 1
+            if it is None:
+                ctx.ob(rule, f, ifn, None, 'memo table inside a nested function: key dependencies not derived')
+                continue
+            kv, vv = it.value_of(k), it.value_of(v)
+            kd = set(kv.deps or ()) if kv is not None else set()
+            vd = set(vv.deps or ()) if vv is not None else set()
+            for sub in ast.walk(v):
+                if isinstance(sub, ast.Call):
+                    for a_ in list(sub.args) + [kw_.value for kw_ in sub.keywords]:
+                        av_ = it.value_of(a_.value if isinstance(a_, ast.Starred) else a_)
+                        if av_ is not None and av_.deps:
+                            vd |= set(av_.deps)
+            missing = []
+            for p in f.params():
+                if p in ('self', 'cls'):
+                    continue
+                dep = f'param:{f.name}.{p}'
+                uses = any(d == dep or d.startswith(dep + '[') or d.startswith(dep + '#') for d in vd)
+                keyed = dep in kd
+                if not keyed and any(d.startswith(dep + '[') for d in kd):
+                    # only selected entries of a mapping parameter are part of the key
+                    keyed_entries = {d for d in kd if d.startswith(dep + '[')}
+                    used_whole = any(d == dep for d in vd)
+                    used_entries = {d for d in vd if d.startswith(dep + '[')}
+                    keyed = not used_whole and used_entries <= keyed_entries
+                if uses and not keyed:
+                    missing.append(p)
+            kw = f.node.args.kwarg.arg if f.node.args.kwarg else None
+            if kw and kw not in missing:
+                dep = f'param:{f.name}.{kw}'
+                if any(d == dep for d in vd) and dep not in kd:
+                    missing.append('**' + kw)
+            ctx.ob(rule, f, ifn, not missing, 'the memo key covers every parameter the stored value depends on' if not missing else
+                   f'the stored value depends on {", ".join("`" + m + "`" for m in missing)}, which is not part of the memo key `{norm_text(k)}`: a later '
+                   f'call that differs only in that argument silently receives the value memoised for the earlier call')
+    ctx.ob(rule, 'gemdat', f'{n_sites} hand-rolled memo tables', True, 'enumerated over the whole package')
